@@ -220,7 +220,7 @@ impl<'r> Enc<'r> {
     /// `astring`: additionally an atom when the content allows it
     pub fn astring(&mut self, b: &[u8]) {
         let can_atom = !b.is_empty() && b.iter().all(|c| is_astring_char(*c));
-        if can_atom && (!self.vary || self.rng.chance(1, 2)) {
+        if can_atom && !(self.force_literal && self.rng.chance(1, 2)) && (!self.vary || self.rng.chance(1, 2)) {
             self.raw(b)
         } else {
             self.string(b)
@@ -802,6 +802,12 @@ fn opt_ext(rng: &mut Rng) -> Option<BodyExtension<'static>> {
 pub fn body_structure(rng: &mut Rng, depth: usize) -> BodyStructure<'static> {
     let k = if depth == 0 { rng.below(2) } else { rng.below(4) };
     match k {
+        0 if rng.chance(1, 8) => {
+            // message/* other than rfc822 is an ordinary basic part (bounces, read receipts)
+            let ty = if rng.chance(1, 2) { "MESSAGE" } else { "message" };
+            let st = *rng.pick(&["DELIVERY-STATUS", "disposition-notification", "PARTIAL", "global"]);
+            BodyStructure::Basic { common: common(rng, Cow::Owned(ty.to_string()), Cow::Owned(st.to_string())), other: single_part(rng), extension: opt_ext(rng) }
+        }
         0 => loop {
             let ty = utf8_any(rng);
             if !ty.eq_ignore_ascii_case("TEXT") && !ty.eq_ignore_ascii_case("MESSAGE") {
